@@ -220,6 +220,7 @@ def check(case, stats=None):
             if c.op == "ctx_dispatch" and c.depth == 0 and disp is not None and disp["rec"] is c:
                 disp["ret"] = r.ret
                 disp["looping_after"] = r.fields.get("looping") == "1"
+                disp["activity"] = any(x.k in ("B",) or (x.k == "S") for x in recs[c.i + 1:r.i]) or (r.i + 1 < len(recs) and recs[r.i + 1].k == "S" and any(st.get(m_) != l_[0] and st.get(m_) == "R" for m_, l_ in recs[r.i + 1].states.items()))
                 finished_disp.append(disp)
                 disp = None
         elif r.k == "B":
@@ -266,7 +267,10 @@ def flush_disp(fin, st, F, deferred, bad, stats):
     while fin:
         d = fin.pop(0)
         r = d["rec"]
-        bearing = (not d["was_looping"] and d.get("looping_after")) or (d.get("ret", 0) > 0 and d.get("looping_after"))
+        # a dispatch call ends with an evaluation pass when it started the loop or processed a batch of events; "processed a
+        # batch" is judged from the return value OR from observed activity inside the call (a callback ran, a module changed
+        # state - eg. a lone poison pill took effect), so that a miscounted batch cannot hide a skipped pass
+        bearing = (not d["was_looping"] and d.get("looping_after")) or ((d.get("ret", 0) > 0 or d.get("activity")) and d.get("looping_after") and d.get("ret", 0) >= 0)
         if not bearing:
             continue
         if stats is not None:
